@@ -1200,4 +1200,5 @@ class Program:
 def load(units=None, variant='A'):
     res, stats = extract(units, variant)
     p = Program(res, stats)
+    p.variant = variant
     return p
